@@ -314,10 +314,56 @@ var utf8Frags = [][]byte{
 	{0xf5, 0x80, 0x80, 0x80}, {0xf8}, {0xff}, {0xfe, 0xff}, {'a'}, {'z', 0x7f}, {0},
 }
 
+// one member of a family of malformed (or boundary) UTF-8 shapes, parameters drawn at random
+const utf8Families = 14
+
+func (r *runner) badUTF8() []byte { return r.utf8Family(r.rnd.Intn(utf8Families)) }
+
+func (r *runner) utf8Family(fam int) []byte {
+	c := func() byte { return byte(0x80 + r.rnd.Intn(0x40)) } // a continuation byte
+	switch fam {
+	case 0: // a surrogate half, ED A0..BF 80..BF
+		return []byte{0xed, byte(0xa0 + r.rnd.Intn(0x20)), c()}
+	case 1: // overlong two-byte form C0/C1 xx
+		return []byte{byte(0xc0 + r.rnd.Intn(2)), c()}
+	case 2: // overlong three-byte form E0 80..9F xx
+		return []byte{0xe0, byte(0x80 + r.rnd.Intn(0x20)), c()}
+	case 3: // overlong four-byte form F0 80..8F xx xx
+		return []byte{0xf0, byte(0x80 + r.rnd.Intn(0x10)), c(), c()}
+	case 4: // beyond U+10FFFF: F4 90..BF xx xx
+		return []byte{0xf4, byte(0x90 + r.rnd.Intn(0x30)), c(), c()}
+	case 5: // F5..FF lead
+		return []byte{byte(0xf5 + r.rnd.Intn(11)), c(), c(), c()}
+	case 6: // lone continuation bytes
+		return []byte{c(), c()}[:1+r.rnd.Intn(2)]
+	case 7: // a valid lead whose second byte is not a continuation
+		return []byte{[]byte{0xc2, 0xdf, 0xe1, 0xec, 0xee, 0xf1, 0xf3}[r.rnd.Intn(7)], []byte{0x00, 0x7f, 0xc0, 0xff, 'a'}[r.rnd.Intn(5)], c()}
+	case 8: // a valid three/four-byte start whose third / fourth byte is wrong
+		p := []byte{0xe2, 0x82, 0x7f}
+		if r.rnd.Intn(2) == 0 {
+			p = []byte{0xf0, 0x9f, 0x98, 0xc0}
+		}
+		return p
+	case 9: // truncated three-byte sequence
+		return []byte{byte(0xe1 + r.rnd.Intn(12)), c()}[:1+r.rnd.Intn(2)]
+	case 10: // truncated four-byte sequence
+		return []byte{byte(0xf1 + r.rnd.Intn(3)), c(), c()}[:1+r.rnd.Intn(3)]
+	case 11: // the last valid / first invalid second byte after E0, ED, F0, F4
+		return [][]byte{{0xe0, 0xa0, 0x80}, {0xe0, 0x9f, 0xbf}, {0xed, 0x9f, 0xbf}, {0xed, 0xa0, 0x80}, {0xf0, 0x90, 0x80, 0x80}, {0xf0, 0x8f, 0xbf, 0xbf},
+			{0xf4, 0x8f, 0xbf, 0xbf}, {0xf4, 0x90, 0x80, 0x80}}[r.rnd.Intn(8)]
+	case 12: // a valid rune of random width
+		return []byte(string(rune([]int{0x80, 0x7ff, 0x800, 0xffff, 0x10000, 0x10ffff}[r.rnd.Intn(6)])))
+	default:
+		return []byte{0xef, 0xbf, 0xbd} // U+FFFD itself
+	}
+}
+
 func (r *runner) runeBytes() []byte {
 	var p []byte
 	for n := 1 + r.rnd.Intn(4); n > 0; n-- {
-		if r.rnd.Intn(5) == 0 {
+		if r.rnd.Intn(2) == 0 {
+			p = append(p, r.badUTF8()...)
+		} else if r.rnd.Intn(5) == 0 {
 			p = append(p, byte(0x80+r.rnd.Intn(0x80)))
 		} else {
 			p = append(p, utf8Frags[r.rnd.Intn(len(utf8Frags))]...)
@@ -349,6 +395,10 @@ func (r *runner) script() []chunk {
 			e = 1
 		case 1:
 			e = 2 + r.rnd.Intn(5)
+		case 3, 4: // an error that must keep its identity: wraps io.EOF / ErrUnexpectedEOF, Is(io.EOF), joined
+			e = identityErrs[r.rnd.Intn(len(identityErrs))]
+		case 5: // (0, nil): the loop just reads again
+			l = 0
 		case 2:
 			if r.rnd.Intn(3) == 0 {
 				e = -1
@@ -507,6 +557,9 @@ func (r *runner) next(w *weights) *gop {
 		}
 		if r.rnd.Intn(4) == 0 {
 			e = 2 + r.rnd.Intn(5)
+			if r.rnd.Intn(2) == 0 {
+				e = append([]int{1}, identityErrs...)[r.rnd.Intn(1+len(identityErrs))]
+			}
 		}
 		if inv {
 			m = ln + 1 + r.rnd.Intn(3)
@@ -590,7 +643,7 @@ func (r *runner) anInit(kinds []int) initSpec {
 	}
 }
 
-func genHistory(class string, rnd *rand.Rand, thorough bool) *hist {
+func genHistory(class string, idx int, rnd *rand.Rand, thorough bool) *hist {
 	nOps := 12 + rnd.Intn(22)
 	if thorough {
 		nOps = 12 + rnd.Intn(40)
@@ -618,6 +671,8 @@ func genHistory(class string, rnd *rand.Rand, thorough bool) *hist {
 		w = &wRwAny
 	case "tex-newsized":
 		w = &wRewrite
+	case "eq-utf8":
+		return utf8History(idx, rnd)
 	default:
 		panic("unknown class " + class)
 	}
@@ -641,12 +696,44 @@ func genHistory(class string, rnd *rand.Rand, thorough bool) *hist {
 	return r.h
 }
 
+// class eq-utf8: every family of malformed / boundary UTF-8 shapes, placed where ReadRune starts decoding, drained rune
+// by rune with Unread* in between; history idx starts its j-th write with family (idx+5j) mod 14, so every family is
+// the first thing decoded in at least four histories of the quick tier
+func utf8History(idx int, rnd *rand.Rand) *hist {
+	r := newRunner("eq-utf8", rnd, initSpec{k: iZero}, true)
+	r.construct()
+	for j := 0; j < 3; j++ {
+		p := r.utf8Family((idx + 5*j) % utf8Families)
+		for k := rnd.Intn(3); k > 0; k-- {
+			p = append(p, r.badUTF8()...)
+		}
+		if j == 2 && rnd.Intn(2) == 0 { // end the buffer inside a sequence
+			p = append(p, r.utf8Family(9+rnd.Intn(2))...)
+		}
+		r.do(&gop{k: kWrite, p: p}, false)
+		for k := 0; k < 14 && r.tlen() > 0; k++ {
+			r.do(&gop{k: kReadRune}, false)
+			switch rnd.Intn(8) {
+			case 0:
+				r.do(&gop{k: kUnreadRune}, true)
+				r.do(&gop{k: kReadRune}, false)
+			case 1:
+				r.do(&gop{k: kUnreadByte}, true)
+			case 2:
+				r.do(&gop{k: kReadByte}, false)
+			}
+		}
+	}
+	r.do(&gop{k: kReadRune}, true)
+	return r.h
+}
+
 var classes = []struct {
 	name  string
 	quick int // histories in the quick tier
 }{
 	{"eq-mixed", 220}, {"eq-rune", 140}, {"eq-grow", 160}, {"eq-io", 90}, {"eq-invalid", 100},
-	{"tex-rewrite", 130}, {"tex-rewrite-any", 50}, {"tex-newsized", 40},
+	{"tex-rewrite", 130}, {"tex-rewrite-any", 50}, {"tex-newsized", 40}, {"eq-utf8", 56},
 }
 
 func parRounds(thorough bool) int {
@@ -687,7 +774,7 @@ func main() {
 				}
 				return
 			}
-			h := genHistory(f[1], caseRnd(seed, f[1], idx), f[3] == "1")
+			h := genHistory(f[1], idx, caseRnd(seed, f[1], idx), f[3] == "1")
 			h.emit(e, e.Replay)
 			return
 		}
@@ -733,7 +820,7 @@ func main() {
 				}
 			}
 			for i := 0; i < n; i++ {
-				h := genHistory(c.name, caseRnd(e.Seed, c.name, i), thorough)
+				h := genHistory(c.name, i, caseRnd(e.Seed, c.name, i), thorough)
 				t := "0"
 				if thorough {
 					t = "1"
